@@ -62,6 +62,9 @@ def boxedInvOddVal (l : Nat) (a m : Nat) : Option Nat :=
 def specInv2k (a k : Nat) : Option Nat :=
   if k = 0 then some 0 else if a % 2 = 1 then specInv (a % 2 ^ k) (2 ^ k) else none
 
+/-- … for a `w`-bit result: `k > BITS` (outside C10's `k ≤ BITS`) can only mean the low `BITS` bits -/
+def specInv2kW (w a k : Nat) : Option Nat := specInv2k a (if k > w then w else k)
+
 /-- Montgomery-form inversion on values: `R = 2^(64n)`; retrieve by multiplying with `R⁻¹`. -/
 def montyInv (n a m : Nat) (run : Nat → Nat → Option (Option Nat)) : String :=
   let r := 2 ^ (64 * n)
@@ -96,7 +99,7 @@ def dispatchC10 : Dispatch := fun op args =>
     match n.toNat?, hexToNat? a, k.toNat? with
     | some n, some a, some k =>
       let r := invMod2k (64 * n) a k
-      some (both (optTok (if r.2 then some r.1 else none)) (optTok (specInv2k a k)))
+      some (both (optTok (if r.2 then some r.1 else none)) (optTok (specInv2kW (64 * n) a k)))
     | _, _, _ => badArgs
   | "c10.u.inv_mod2k_vartime", [n, a, k] =>
     match n.toNat?, hexToNat? a, k.toNat? with
@@ -104,7 +107,7 @@ def dispatchC10 : Dispatch := fun op args =>
       let l1 := match invMod2kVartime (64 * n) a k with
         | none => "panic"
         | some r => optTok (if r.2 then some r.1 else none)
-      some (both l1 (optTok (specInv2k a k)))
+      some (both l1 (optTok (specInv2kW (64 * n) a k)))
     | _, _, _ => badArgs
   | "c10.hook.inv_mod2k_full_vartime", [n, a, k] =>
     match n.toNat?, hexToNat? a, k.toNat? with
@@ -114,13 +117,13 @@ def dispatchC10 : Dispatch := fun op args =>
     match n.toNat?, hexToNat? a, k.toNat? with
     | some n, some a, some k =>
       let r := invMod2k (64 * n) a k
-      some (both (optTok (if r.2 then some r.1 else none)) (optTok (specInv2k a k)))
+      some (both (optTok (if r.2 then some r.1 else none)) (optTok (specInv2kW (64 * n) a k)))
     | _, _, _ => badArgs
   | "c10.b.inv_mod2k_vartime", [n, a, k] =>
     match n.toNat?, hexToNat? a, k.toNat? with
     | some n, some a, some k =>
       let r := invMod2kVartimeBoxed (64 * n) a k
-      some (both (optTok (if r.2 then some r.1 else none)) (optTok (specInv2k a k)))
+      some (both (optTok (if r.2 then some r.1 else none)) (optTok (specInv2kW (64 * n) a k)))
     | _, _, _ => badArgs
   -- ---------------------------------------------------------------- general modulus
   | "c10.u.inv_mod", [n, a, m] | "c10.u.inv_mod_trait", [n, a, m] =>
@@ -129,9 +132,9 @@ def dispatchC10 : Dispatch := fun op args =>
     | none => badArgs
   | "c10.u.inv_mod_m0", [n, a, _form] =>
     match n.toNat?, hexToNat? a with
-    -- modulus 0 is outside C10's domain (m ≥ 1): C10 allows either answer (totality is C11's, DESIGN §7 row 8);
-    -- L1 still mirrors the code (`panic`, theorem `inv_mod_zero_modulus_panics`)
-    | some n, some a => some (both (rTok (invModWith (fixedInvOdd n) (64 * n) a 0)) "panic || none")
+    -- modulus 0 (outside C10's domain m ≥ 1; DESIGN §7 row 8, repaired by /repo be88d84): `none`
+    -- (theorem `inv_mod_zero_modulus_none`)
+    | some n, some a => some (both (rTok (invModWith (fixedInvOdd n) (64 * n) a 0)) "none")
     | _, _ => badArgs
   | "c10.b.inv_mod", [n, a, m] | "c10.b.inv_mod_trait", [n, a, m] =>
     match p3 n a m with
@@ -145,6 +148,12 @@ def dispatchC10 : Dispatch := fun op args =>
         | some _ => rTok (invModBoxedWith (boxedInvOddVal n) w a m)
       some (both l1 (optTok (specInv a m)))
     | none => badArgs
+  | "c10.b.inv_mod_mixed", [la, a, lm, m] =>
+    -- `BoxedUint::inv_mod` documents "must have the same number of limbs, or the function will panic";
+    -- since /repo fb50dbc the `assert_eq!` runs in every build
+    match la.toNat?, hexToNat? a, lm.toNat?, hexToNat? m with
+    | some la, some _, some lm, some _ => if la = lm then badArgs else some (both "panic" "panic")
+    | _, _, _, _ => badArgs
   | "c10.u.inv_odd_mod", [n, a, m] =>
     match p3 n a m with
     | some (n, a, m) => some (both (optTok (fixedInvOdd n a m)) (optTok (specInv a m)))
